@@ -2,6 +2,7 @@ package generator
 
 import (
 	"fmt"
+	"math"
 	"reflect"
 	"strings"
 
@@ -369,6 +370,8 @@ func (v *numericValidator) genBoundary(
 		return
 	}
 
+	boundaryValue := v.boundaryValueOf(*boundary, sign, exclusive)
+
 	// Technically, this should be based on schema version, but that information is lost.
 	comp := sign
 	if exclusive {
@@ -378,9 +381,9 @@ func (v *numericValidator) genBoundary(
 		sign += "="
 	}
 
-	out.Printlnf(`if %s%v %s%s %s {`, checkPointer, v.valueOf(*boundary), comp, pointerPrefix, value)
+	out.Printlnf(`if %s%v %s%s %s {`, checkPointer, boundaryValue, comp, pointerPrefix, value)
 	out.Indent(1)
-	out.Printlnf(`return fmt.Errorf("field %%s: must be %s %%v", "%s", %v)`, sign, v.jsonName, v.valueOf(*boundary))
+	out.Printlnf(`return fmt.Errorf("field %%s: must be %s %%v", "%s", %v)`, sign, v.jsonName, boundaryValue)
 	out.Indent(-1)
 	out.Printlnf("}")
 }
@@ -398,6 +401,21 @@ func (v *numericValidator) valueOf(val float64) any {
 	}
 
 	return val
+}
+
+// boundaryValueOf returns the literal to compare against for a bound. For integer
+// fields a non-integral bound is rounded so that the integer comparison admits
+// exactly the integers the bound admits (sign is "<" for a maximum, ">" for a minimum).
+func (v *numericValidator) boundaryValueOf(val float64, sign string, exclusive bool) any {
+	if !v.roundToInt {
+		return val
+	}
+
+	if (sign == "<") == exclusive {
+		return int64(math.Ceil(val))
+	}
+
+	return int64(math.Floor(val))
 }
 
 func getPlainName(fieldName string) string {
